@@ -394,6 +394,30 @@ def oracle(ctx, scale):
             Nd = rng.randint(4 * p + 8, 4 * p + 400)
         off = rng.choice([0.0, 0.0, 3.0])
         _large_case(ctx, bh, cs, l, ref, p, Nd, off)
+    # (1c) data-driven method on records with fewer samples than stacked past rows (N-1 < (br+1)*r, still inside "every
+    # record length up to 40" for br = 5 and 4 references): the layout clause asks for (br+1) block columns of the references
+    for _ in range(ctx.n(6, 40) * scale):
+        l = rng.randint(1, 4)
+        r = rng.randint(1, l)
+        pp = rng.randint(1, 5)
+        a = (pp + 1) * r
+        if a < 3:
+            continue
+        nm1 = rng.randint(2, a - 1)  # N - 1
+        Nd = nm1 + 1 + 2 * pp + 1
+        g = ctx.nprng()
+        Y = g.standard_normal((l, Nd))
+        ref = sorted(rng.sample(range(l), r))
+        try:
+            H, _ = bh(Y, Y[ref, :], pp, "dat")
+        except Exception as e:  # noqa: BLE001
+            ctx.violation("dat-short-record-raises", f"dat: {type(e).__name__} on a record of {Nd} samples (l={l}, r={r}, br={pp})", {"l": l, "ref": ref, "p": pp, "Ndat": Nd})
+            continue
+        ctx.oracle_cases += 1
+        ctx.count("oracle_dat_short_record")
+        if H.shape != ((pp + 1) * l, a):
+            ctx.violation("dat-short-record-layout", f"dat: matrix of shape {H.shape} instead of {((pp + 1) * l, a)} for a record of {Nd} samples (l={l}, r={r}, br={pp}: "
+                          f"{nm1} averaged samples < {a} stacked past rows)", {"l": l, "ref": ref, "p": pp, "Ndat": Nd}, observed=list(H.shape), expected=[(pp + 1) * l, a])
     # (1b) through the classes: the Hankel matrix stored by SSIcov/SSIdat for a reference list in ANY order has one
     # block column per listed reference, in the listed order
     from pyoma2.algorithms import SSIcov, SSIdat
